@@ -141,6 +141,31 @@ def _hints(exe, are, aim, f):
     return int(o[0].split()[1]), int(o[0].split()[2])
 
 
+def short_aux_hints(exe, lvl, variant, pk, h6):
+    """second factor: public hints on y^2 = x^3 + 6x^2 + x whose canonical point has *short* order (the x-coordinate i + hint
+    is on the curve but the point is a double), found by scanning hints >= 20 and reading the order bits the driver reports:
+    returns {(which point): (ha0, ha1)} for T1.P2 and T2.P2"""
+    c = vc.CONST[lvl]
+    pd = vc.pk_dict(pk)
+    out = {}
+    lines, cands = [], []
+    for which in (0, 1):
+        for h in range(20, 44):
+            ha = (h, h6[1]) if which == 0 else (h6[0], h)
+            if variant == "dim2":
+                d = dict(Are=6, Aim=0, Cre=1, Cim=0, bt=0, trl=0, m00=3, m01=1, m10=1, m11=2, chall=5, chall_b=0, ha0=ha[0], ha1=ha[1],
+                         hc0=pd["h0"], hc1=pd["h1"])
+            else:
+                d = dict(Are=6, Aim=0, Cre=1, Cim=0, trl=0, ha0=ha[0], ha1=ha[1], x=1, hint_b=0, b0=1, d0=2, b1=0, d1=1, c0=0, e0=0)
+            lines.append(vc.verify_line(variant, pk, vc.sig_tokens(variant, d), "00")); cands.append((which, ha))
+    st, o, err = vc.run_lines(exe, lines, 600)
+    for (which, ha), l in zip(cands, o):
+        ordb = vc.parse_kv(l).get("ord", "-")
+        if len(ordb) == 6 and ordb[3 + which] == "0" and ordb[4 - which] == "1" and which not in out:
+            out[which] = ha
+    return out
+
+
 def family_constructions(ctx, drivers, honest, rng, quick, levels=None):
     """Secret-free constructions with *valid* public hints (library basis routines through the driver op `hints`):
     kernel families x E_aux in {pk curve + pk hints, y^2 = x^3 + 6x^2 + x + its hints, the same with a wrong aux hint}
@@ -158,6 +183,13 @@ def family_constructions(ctx, drivers, honest, rng, quick, levels=None):
         auxes = [("pk", pd["Are"], pd["Aim"], pd["h0"], pd["h1"])]
         if h6:
             auxes += [("A=6", 6, 0, h6[0], h6[1]), ("A=6,hint_aux[0]+1", 6, 0, h6[0] + 1, h6[1])]
+            # second-factor families: a kernel point on E_aux of short order / on a singular cubic
+            sh = short_aux_hints(exe, lvl, variant, pk, h6)
+            if 0 in sh:
+                auxes.append(("A=6,T1.P2 short (hint_aux[0]=%d)" % sh[0][0], 6, 0, sh[0][0], sh[0][1]))
+            if 1 in sh:
+                auxes.append(("A=6,T2.P2 short (hint_aux[1]=%d)" % sh[1][1], 6, 0, sh[1][0], sh[1][1]))
+            auxes += [("singular A=2,hints 0,0", 2, 0, 0, 0), ("singular A=-2,hints 1,2", c["p"] - 2, 0, 1, 2)]
         msg = "666f726765642023%02x" % lvl
         # j-invariant bytes of the public key (any run reports them)
         st, o, err = vc.run_lines(exe, [vc.verify_line(variant, pk, hs[0]["sig"], "00")], 120)
@@ -166,14 +198,16 @@ def family_constructions(ctx, drivers, honest, rng, quick, levels=None):
         fams = dim2_families(fB) if variant == "dim2" else None
         trls = (0, 1, 3) if (lvl == 1 or not quick) else (0, 1)
         for trl in trls:
-            for an, are, aim, ha0, ha1 in (auxes if (lvl == 1 or not quick) else auxes[:2]):
+            for an, are, aim, ha0, ha1 in (auxes if (lvl == 1 or not quick) else auxes[:2] + auxes[3:5]):
                 for fi, (fl, fam) in enumerate(fams if fams else heur_families(lvl, trl)):
                     if quick and lvl != 1 and fi not in (0, 2, 3):
                         continue
                     if an != "pk" and trl == 3:
                         continue
+                    if ("short" in an or "singular" in an) and fi not in (0, 8):
+                        continue            # second-factor variants: with the T1.P1 = O family and with a full-order first factor
                     for start in ("pre", "rand"):
-                        if start == "rand" and (fi not in (0, 3, 8) or an == "A=6,hint_aux[0]+1"):
+                        if start == "rand" and (fi not in (0, 3, 8) or an == "A=6,hint_aux[0]+1" or "singular" in an):
                             continue
                         jobs.append((lvl, variant, exe, pk, msg, trl, an, are, aim, ha0, ha1, fl, fam, start,
                                      pre if start == "pre" else rng.bits(64 * c["nw"] - 9) | 1))
